@@ -512,12 +512,45 @@ def rule_comprehension(run):
     run.end()
 
 
+def rule_unreachable(run):
+    run.begin(
+        "C10.unreach",
+        "statements that follow a statement returning on every path are not evaluated: every place that traces a LIST of "
+        "statements (function bodies, blocks) stops after a statement whose returns_always() holds",
+        floor=2,
+    )
+    prep = run.idx.mod(PREP)
+    # sites that trace a statement list: a loop / comprehension applying self.apply to each element of a body list
+    sites = []
+    for q, f in prep.functions.items():
+        if not q.startswith("PrepareAst."):
+            continue
+        for n in walk_local(f.node):
+            if isinstance(n, ast.ListComp) and isinstance(n.elt, ast.Call) and dotted(n.elt.func) == "self.apply" and len(n.generators) == 1:
+                it = src(n.generators[0].iter)
+                if it in ("inp", "self._fn_def.body()") or it.endswith(".body()"):
+                    sites.append((q, n, "comprehension: every statement is traced"))
+            if isinstance(n, ast.For) and any(dotted(c.func) == "self.apply" and c.args and dotted(c.args[0]) == (n.target.id if isinstance(n.target, ast.Name) else None) for c in calls_in(n)):
+                params = [a.arg for a in f.node.args.args]
+                if isinstance(n.iter, ast.Name) and n.iter.id in params and "stmt" in n.iter.id:
+                    stops = any(isinstance(b, ast.Break) for b in ast.walk(n)) and any(isinstance(c.func, ast.Attribute) and c.func.attr == "returns_always" for c in calls_in(n))
+                    sites.append((q, n, None if stops else "loop never stops at a returning statement"))
+    if not sites:
+        raise AnalysisError("no statement-list tracing site found")
+    for q, n, bad in sites:
+        run.ob(bad is None, q, file=prep.rel, line=n.lineno, detail="stops-after-return", expected="tracing stops after a statement with returns_always()", found=bad or "ok")
+    # the helper is what function bodies and blocks use
+    users = [q for q, f in prep.functions.items() for c in calls_in(f.node) if dotted(c.func) == "self._apply_statements"]
+    run.ob(len(users) >= 2, "PrepareAst", file=prep.rel, line=0, detail="used-by-bodies-and-blocks", expected="function bodies and statement blocks are traced through the stopping helper", found=str(sorted(set(users))))
+    run.end()
+
+
 def rule_purge(run):
     from . import c11
     c11.rule_definition_purge(run)   # a stale cached definition makes a traced function see old globals (C10) and history (C11)
 
 
-RULES = [rule_tables, rule_dispatch, rule_compare_chain, rule_boolop, rule_fail_closed, rule_bind, rule_env, rule_builtins, rule_siblings, rule_unpack, rule_purge, rule_defaults, rule_comprehension]
+RULES = [rule_tables, rule_dispatch, rule_compare_chain, rule_boolop, rule_fail_closed, rule_bind, rule_env, rule_builtins, rule_siblings, rule_unpack, rule_purge, rule_defaults, rule_comprehension, rule_unreachable]
 LEVEL = "other"
 EXPLANATION = (
     "The tracer re-implements CPython's evaluation rules by hand; decided here, for all programs, are the parts of "
